@@ -4,6 +4,7 @@ package c14
 import (
 	"bytes"
 	"context"
+	"errors"
 	"fmt"
 	"math/rand"
 	"net"
@@ -119,6 +120,10 @@ type devConn struct {
 	readyTime time.Time
 	// noflush: a reply nobody read stays in the connection, in front of the next one (an in-order device behind a socket)
 	noflush bool
+	// split > 0: the reply comes in two bursts, the first one split bytes long, with one empty read between them (a
+	// serial port reports that as 0 bytes and no error, a socket as a timed-out read); gap counts the empty reads owed
+	split, gap int
+	serial     bool
 }
 
 func (d *devConn) jitter() {
@@ -188,6 +193,12 @@ func (d *devConn) Write(p []byte) (int, error) {
 	if ow != nil && ow.noReply {
 		d.readyAt = 1 << 30
 	}
+	d.split, d.gap = 0, 0
+	if d.delay > 0 && len(stale) == 0 && len(d.pending) > 5 && d.rng.Intn(3) == 0 {
+		// (a first burst of 1..3 bytes: shorter than any expected reply length the library computes, so the known finding
+		// about expected lengths that are a byte or two short does not come into play)
+		d.split = 1 + d.rng.Intn(3)
+	}
 	return len(p), nil
 }
 
@@ -229,6 +240,19 @@ func (d *devConn) Read(p []byte) (int, error) {
 			}
 		}
 		return 0, os.ErrDeadlineExceeded
+	}
+	if d.gap > 0 {
+		d.gap--
+		if d.serial {
+			return 0, nil
+		}
+		return 0, os.ErrDeadlineExceeded
+	}
+	if d.split > 0 && d.split < len(d.pending) && d.split <= len(p) {
+		n := copy(p, d.pending[:d.split])
+		d.pending = d.pending[n:]
+		d.split, d.gap = 0, 1
+		return n, nil
 	}
 	n := copy(p, d.pending)
 	d.pending = d.pending[n:]
@@ -350,12 +374,14 @@ func run(ci any, r *mon.Rec) {
 		cmu.Lock()
 		defer cmu.Unlock()
 		d := &devConn{fr: fr, dev: dev, delay: c.Delay, rng: rand.New(rand.NewSource(c.Seed + int64(len(conns)))), owners: lookup,
-			blocking: c.Client == clientx.Serial && c.Block, noflush: c.Mode == "reconnect"}
+			blocking: c.Client == clientx.Serial && c.Block, noflush: c.Mode == "reconnect", serial: c.Client == clientx.Serial}
 		conns = append(conns, d)
 		return d
 	}
 	var cl doer
 	var connect func() error
+	var failDial atomic.Bool
+	var failedDials atomic.Int64
 	var gh *groupHooks
 	if c.Mode == "plain" && (c.Seed%2 == 1 || c.Client == clientx.Serial) {
 		gh = &groupHooks{}
@@ -372,7 +398,17 @@ func run(ci any, r *mon.Rec) {
 		if c.Mode == "reconnect" {
 			rtc = 100 * time.Millisecond
 		}
-		cfg := modbus.ClientConfig{ReadTimeout: rtc, WriteTimeout: wt, Hooks: hooksOrNil(gh), DialContextFunc: func(ctx context.Context, a string) (net.Conn, error) { return newConn(), nil }}
+		cfg := modbus.ClientConfig{ReadTimeout: rtc, WriteTimeout: wt, Hooks: hooksOrNil(gh), DialContextFunc: func(ctx context.Context, a string) (net.Conn, error) {
+			if failDial.Load() {
+				if failedDials.Add(1)%2 == 1 {
+					return nil, errors.New("verif: dial refused")
+				}
+				// the other way dial functions commonly report a failure: a nil pointer of their connection type and the error
+				var none *devConn
+				return none, errors.New("verif: dial refused")
+			}
+			return newConn(), nil
+		}}
 		var nc *modbus.Client
 		if c.Client == clientx.TCP {
 			nc = modbus.NewTCPClientWithConfig(cfg)
@@ -480,6 +516,25 @@ func run(ci any, r *mon.Rec) {
 			return
 		}
 		time.Sleep(350 * time.Millisecond) // by now the late reply has arrived on the abandoned connection
+	}
+	if c.Mode == "plain" && connect != nil && c.Seed%3 == 0 {
+		// one more goroutine calls Connect while the others use the client, and the dial fails (the standby address is
+		// down): a Connect that did not connect changes nothing - the callers keep getting their replies
+		wg.Add(1)
+		go func() {
+			defer wg.Done()
+			lr := rand.New(rand.NewSource(c.Seed ^ 0x51ab))
+			for i := 0; i < 2; i++ {
+				time.Sleep(time.Duration(lr.Intn(800)) * time.Microsecond)
+				failDial.Store(true)
+				var err error
+				if p, txt := mon.Catch(func() { err = connect() }); p {
+					addViol("lifecycle-panics", "Connect with a failing dial: "+txt)
+				}
+				failDial.Store(false)
+				r.Cover("plain", fmt.Sprintf("a Connect whose dial fails while callers are active (returned an error: %v)", err != nil))
+			}
+		}()
 	}
 	if c.Mode == "plain" || c.Mode == "lifecycle" {
 		// one more user of the shared client whose call panics inside Do (an application-defined request type with a broken
@@ -608,7 +663,9 @@ func run(ci any, r *mon.Rec) {
 	}
 	close(stop)
 	wg.Wait()
-	_ = cl.Close()
+	if p, txt := mon.Catch(func() { _ = cl.Close() }); p {
+		addViol("lifecycle-panics", "Close at the end of the case: "+txt)
+	}
 	r.Eval(int(okCalls.Load() + errCalls.Load()))
 	r.NoteAdd("calls_ok", okCalls.Load())
 	r.NoteAdd("calls_err_tolerated", errCalls.Load())
